@@ -72,10 +72,18 @@ def _check_pixel(ctx, D, o, nx, ny, x, y, img, t, tag):
 
 
 def exhaustive(ctx, tier):
-    from xfab import detector as D
     npix = 0
     for o in itertools.product([-1, 0, 1], repeat=4):
         ctx.begin({"exhaustive-orientation": list(o)})
+        npix += exhaustive_one(ctx, o)
+    ctx.extra["exhaustive_pixel_checks"] = npix
+
+
+def exhaustive_one(ctx, o):
+    from xfab import detector as D
+    npix = 0
+    o = tuple(o)
+    for _ in (0,):
         img = np.arange(12).reshape(3, 4)
         calls = (lambda: D.trans_orientation(img, *o), lambda: D.image_flipping(img, *o),
                  lambda: D.xy_to_detyz([1, 2], *o, 4, 3), lambda: D.detyz_to_xy([1, 2], *o, 4, 3),
@@ -104,11 +112,14 @@ def exhaustive(ctx, tier):
                     for y in range(ny):
                         npix += 1
                         _check_pixel(ctx, D, o, nx, ny, x, y, img2, t, "exhaustive")
-    ctx.extra["exhaustive_pixel_checks"] = npix
+    return npix
 
 
 def check(case, ctx):
     from xfab import detector as D
+    if "exhaustive-orientation" in case:
+        exhaustive_one(ctx, case["exhaustive-orientation"])
+        return
     o = VALID[case["o"]]
     nx, ny = case["nx"], case["ny"]
     big = nx * ny > 1600
